@@ -200,6 +200,26 @@ def _input_mutations(f):
             d = dotted(x.value)
             if d and "." in d and d.split(".")[0] in params:
                 aliases[x.targets[0].id] = d
+    # working state of a pass object (a list a mapper class makes for itself in __init__ and
+    # fills while it runs) is not part of a description, whoever holds the object
+    own_state = set()
+    for c_ in getattr(f.module, "classes", {}).values():
+        if not any(nm.startswith("map_") for nm in c_.methods):
+            continue
+        # ... or a list the class's own handlers append to
+        for m_ in c_.methods.values():
+            for a_ in ast.walk(m_.node):
+                if isinstance(a_, ast.Call) and isinstance(a_.func, ast.Attribute) and a_.func.attr in _IN_PLACE \
+                        and isinstance(a_.func.value, ast.Attribute) and dotted(a_.func.value.value) == "self":
+                    own_state.add(a_.func.value.attr)
+        init_ = c_.methods.get("__init__")
+        if init_ is None:
+            continue
+        for a_ in ast.walk(init_.node):
+            if isinstance(a_, ast.Assign) and isinstance(a_.value, (ast.List, ast.Dict, ast.Set)) \
+                    and not getattr(a_.value, "elts", None) and not getattr(a_.value, "keys", None):
+                own_state |= {t_.attr for t_ in a_.targets if isinstance(t_, ast.Attribute)
+                              and dotted(t_.value) == "self"}
     out = []
     for x in ast.walk(f.node):
         d = None
@@ -212,7 +232,10 @@ def _input_mutations(f):
         if d is None:
             continue
         if (d.split(".")[0] in params and "." in d) or d in aliases:
-            out.append((x, aliases.get(d, d)))
+            full = aliases.get(d, d)
+            if full.count(".") == 1 and full.split(".")[1] in own_state:
+                continue
+            out.append((x, full))
     return out
 
 
